@@ -285,3 +285,174 @@ func VH_C10_WHERE(ci, n, B int) {
 	}
 	vCover("where-operand")
 }
+
+// json(text)[name]... navigation. Documents are concrete (encoding/json runs natively on
+// concrete text); which document a row holds, the member names and the list indexes are solver
+// variables. A missing member or an index past the end yields '' (README), navigating into a
+// non-empty text or a number is refused.
+type vJ struct {
+	kind byte // s text, n number, o object, a list
+	s    string
+	f    float64
+	keys []string
+	vals []*vJ
+}
+
+func vJS(s string) *vJ   { return &vJ{kind: 's', s: s} }
+func vJN(f float64) *vJ  { return &vJ{kind: 'n', f: f} }
+func vJA(v ...*vJ) *vJ   { return &vJ{kind: 'a', vals: v} }
+func vJO(k []string, v ...*vJ) *vJ { return &vJ{kind: 'o', keys: k, vals: v} }
+
+var vC10Docs = []struct {
+	text string
+	tree *vJ
+}{
+	{`{"a":"x","b":{"a":"y","c":[1,"s"]},"c":[10,"t",{"a":"z"}]}`,
+		vJO([]string{"a", "b", "c"}, vJS("x"), vJO([]string{"a", "c"}, vJS("y"), vJA(vJN(1), vJS("s"))), vJA(vJN(10), vJS("t"), vJO([]string{"a"}, vJS("z"))))},
+	{`{"a":"q","c":[7],"b":""}`, vJO([]string{"a", "c", "b"}, vJS("q"), vJA(vJN(7)), vJS(""))},
+	{`{"c":[[5,6],{"a":{"a":"deep"}}],"a":{"c":[2.5]}}`,
+		vJO([]string{"c", "a"}, vJA(vJA(vJN(5), vJN(6)), vJO([]string{"a"}, vJO([]string{"a"}, vJS("deep")))), vJO([]string{"c"}, vJA(vJN(2.5))))},
+}
+
+// one navigation step of the reference; ok=false: the library must refuse
+func (j *vJ) member(name string) (*vJ, bool) {
+	switch j.kind {
+	case 'o':
+		for i, k := range j.keys {
+			if k == name {
+				return j.vals[i], true
+			}
+		}
+		return vJS(""), true
+	case 's':
+		if j.s == "" {
+			return vJS(""), true
+		}
+	}
+	return nil, false
+}
+
+func (j *vJ) index(i int) (*vJ, bool) {
+	switch j.kind {
+	case 'a':
+		if i < len(j.vals) {
+			return j.vals[i], true
+		}
+		return vJS(""), true
+	case 's':
+		if j.s == "" {
+			return vJS(""), true
+		}
+	}
+	return nil, false
+}
+
+func vJMatches(j *vJ, got any) bool {
+	switch j.kind {
+	case 's':
+		b, ok := vColBytes(got)
+		return ok && string(b) == j.s
+	case 'n':
+		f, ok := got.(float64)
+		return ok && f == j.f
+	case 'o':
+		switch m := got.(type) {
+		case map[string]any:
+			return len(m) == len(j.keys)
+		case JSON:
+			return len(m) == len(j.keys)
+		}
+		return false
+	}
+	l, ok := got.([]any)
+	return ok && len(l) == len(j.vals)
+}
+
+const vNumC10JSONShapes = 6
+
+// VH_C10_JSON(shape, n, B): n rows, each holding one of the documents (solver's choice).
+func VH_C10_JSON(shape, n, B int) {
+	PlanBatchSize = B
+	keys := make([][]byte, n)
+	vals := make([][]byte, n)
+	docs := make([]int, n)
+	for i := 0; i < n; i++ {
+		keys[i] = []byte{byte('a' + i)}
+		docs[i] = vChoose("doc"+vItoa(i), len(vC10Docs))
+		vals[i] = []byte(vC10Docs[docs[i]].text)
+	}
+	st := vNewStoreFrom(keys, vals)
+	name := func(tag string) (string, string) {
+		t, b := vLit(tag, 1, 1, "abcz")
+		return t, string([]byte{byte(vConcretize(int(b[0])))})
+	}
+	num := func(tag string) (string, int) {
+		d := vNondetBytes(tag, 1, 1, "0123")
+		return string(d), vConcretize(int(d[0] - '0'))
+	}
+	var path string
+	var steps []any // string = member, int = index
+	switch shape {
+	case 0:
+		t, l := name("L")
+		path, steps = "["+t+"]", []any{l}
+	case 1:
+		t, l := name("L")
+		path, steps = "['b']["+t+"]", []any{"b", l}
+	case 2:
+		t, i := num("N")
+		path, steps = "['c']["+t+"]", []any{"c", i}
+	case 3:
+		t, l := name("L")
+		path, steps = "["+t+"]['a']", []any{l, "a"}
+	case 4:
+		t, i := num("N")
+		path, steps = "['c']["+t+"]['a']", []any{"c", i, "a"}
+	default:
+		t, l := name("L")
+		u, i := num("N")
+		path, steps = "["+t+"]['c']["+u+"]", []any{l, "c", i}
+	}
+	q := "select key, json(value)" + path + " where key >= ''"
+	// reference per row
+	want := make([]*vJ, n)
+	refused := false
+	for i := 0; i < n; i++ {
+		j, ok := vC10Docs[docs[i]].tree, true
+		for _, s := range steps {
+			switch s := s.(type) {
+			case string:
+				j, ok = j.member(s)
+			case int:
+				j, ok = j.index(s)
+			}
+			if !ok {
+				break
+			}
+		}
+		want[i] = j
+		if !ok {
+			refused = true
+		}
+	}
+	for mode := 0; mode < 2; mode++ {
+		p, err := NewOptimizer(q).BuildPlan(st.clone())
+		vAssert(err == nil, "C10/statement-rejected")
+		var r vRows
+		if mode == 0 {
+			r = vDrainNext(p, n+1)
+		} else {
+			r = vDrainBatch(p, n+1)
+		}
+		if refused {
+			vAssert(r.err != nil, "C10/json-navigation-into-a-text-or-number-not-refused")
+			continue
+		}
+		vAssert(r.err == nil, "C10/evaluation-fails-on-documented-arguments")
+		vAssert(len(r.rows) == n, "harness/C10-row-count")
+		for i, row := range r.rows {
+			vAssert(len(row) == 2 && vJMatches(want[i], row[1]), "C10/json-navigation-returns-a-different-member")
+		}
+	}
+	vCover("navigated")
+}
